@@ -193,4 +193,40 @@ example : CutOk ([(5, 2), (6, 2), (9, 0), (7, 2), (8, 2), (9, 0)].take 3) :=
 example : C02.pixelsSpecAux 0 (([(5, 2), (6, 2), (9, 0), (7, 2), (8, 2), (9, 0)].take 6).drop 3) = [7, 8] := by
   decide
 
+
+/-! ## Channels by attribute -/
+
+/-- No two attributes read the same dataset and no attribute is listed twice (the whole table, by evaluation). -/
+theorem attr_table_nodup : (attrTable.map (·.1)).Nodup ∧ (attrTable.map (·.2)).Nodup := by decide
+
+/-- An attribute of the table returns its own dataset when the file has it and the empty slice when it has not —
+    never another channel. -/
+theorem attr_lookup_spec (present : List String) (attr path : String) (h : (attr, path) ∈ attrTable) :
+    attrLookup present attr = if path ∈ present then .path path else .empty := by
+  unfold attrLookup
+  rw [lookup_of_mem_nodup attrTable attr_table_nodup.1 attr path h]
+  simp only [List.contains_iff_mem]
+
+/-- The naming rule of the table: `force<n><a>` reads `Force HF/Force <n><a>`, `downsampled_force<n><a>` reads
+    `Force LF/Force <n><a>` — for every trap and axis. -/
+theorem attr_naming_rule :
+    ∀ n ∈ [1, 2, 3, 4], ∀ a ∈ ["x", "y", "z"],
+      (s!"force{n}{a}", s!"Force HF/Force {n}{a}") ∈ attrTable ∧
+      (s!"downsampled_force{n}{a}", s!"Force LF/Force {n}{a}") ∈ attrTable := by decide +kernel
+
+/-- Trap totals: the stored `Force n`, else `Trap n`, else the magnitude of the x and y components, else empty. -/
+theorem trap_total_spec (present : List String) (attr f t x y : String) (h : (attr, f, t, x, y) ∈ trapTable) :
+    attrLookup present attr =
+      if f ∈ present then .path f else if t ∈ present then .path t
+      else if x ∈ present ∧ y ∈ present then .magnitude x y else .empty := by
+  have hnone : attrTable.lookup attr = none := by
+    have : ∀ r ∈ trapTable, attrTable.lookup r.1 = none := by decide
+    exact this _ h
+  have hn : (trapTable.map (·.1)).Nodup := by decide
+  unfold attrLookup
+  rw [hnone]
+  simp only
+  rw [lookup_of_mem_nodup trapTable hn attr (f, t, x, y) h]
+  simp only [List.contains_iff_mem, Bool.and_eq_true]
+
 end Verif.C05
